@@ -99,6 +99,9 @@ def cu_run(p, script, wrap=None):
                 ev.append(cu_project(det, "update", x))
             except ValueError as ex:
                 ev.append(cu_project(det, "update", x, "ValueError", det.total_samples != before))
+        elif step[0] == "reset":
+            det.reset()
+            ev.append(cu_project(det, "reset"))
         else:
             before = det.total_samples
             try:
